@@ -587,7 +587,7 @@ Section ConvProofs.
     Proof.
       intros Hv. induction ops as [|o ops IH]; intros st G W Q; [reflexivity|].
       inversion W as [|? ? Wo Wr]; subst.
-      destruct o as [now e|now| |f x]; cbn [Om.quiet] in Q; try contradiction.
+      destruct o as [now e|now| |now f x]; cbn [Om.quiet] in Q; try contradiction.
       - destruct Wo as [We Re]. destruct Q as (L & F & Q).
         rewrite run_save_cons. rewrite (save_versioned now st e vn Hv We Re) in *. rewrite L in *.
         destruct G as (r & n & -> & Hg & Hlt & Hn).
@@ -610,7 +610,7 @@ Section ConvProofs.
     Proof.
       intros Hv. induction ops as [|o ops IH]; intros st W Q; [cbn; lia|].
       inversion W as [|? ? Wo Wr]; subst.
-      destruct o as [now e|now| |f x]; cbn [Om.quiet] in Q; try contradiction.
+      destruct o as [now e|now| |now f x]; cbn [Om.quiet] in Q; try contradiction.
       - destruct Wo as [We Re]. destruct Q as (L & F & Q).
         rewrite run_save_cons. rewrite (save_versioned now st e vn Hv We Re) in *. rewrite L in *.
         destruct (ver_pass st vn (print_Z (e_ver J e))); cbn [fst snd] in *.
@@ -634,7 +634,7 @@ Section ConvProofs.
     Proof.
       intros Hv. induction ops as [|o ops IH]; intros st W Q; [constructor|].
       inversion W as [|? ? Wo Wr]; subst.
-      destruct o as [now e|now| |f x]; cbn [Om.quiet] in Q; try contradiction.
+      destruct o as [now e|now| |now f x]; cbn [Om.quiet] in Q; try contradiction.
       - destruct Wo as [We Re]. destruct Q as (L & F & Q).
         rewrite run_save_cons. constructor; [|apply IH; assumption].
         destruct (save_outcomes now st e vn Hv We Re) as [H|H]; rewrite H; auto.
